@@ -11,6 +11,8 @@ CONSTANTS
   MaxErrors = 1
   PoissonIncs <- Inc013
   ExtAt <- Ext2
+  WaitExtAt <- ExtNone
+  WaitOffsets <- Wait123
   TimerBeforeRampUp = TRUE
   LatencyEndsAtResponse = TRUE
 VIEW view
